@@ -241,18 +241,18 @@ def _gen_str(r, k, depth):
 
 
 def _gen_str_regex(r, k):
-    cfg = G.Cfg(r, depth=r.choice((1, 2, 3)), budget=r.choice((8, 32, 128)), p_neg=r.choice((0.0, 0.3)),
+    cfg = G.Cfg(r, depth=r.choice((1, 2, 3)), budget=r.choice((8, 32, 64)), p_neg=r.choice((0.0, 0.3)),
                 size=r.choice((1, 2, 3)), max_repeat=32, p_unsup=k.p_regex_unsup)
     import re
-    for _ in range(8):
+    for _ in range(16):
         ast = G.gen_pattern(cfg)
         pat = G.render(ast)
         try:
             re.compile(pat)
         except Exception:
             continue
-        if G.rep_nesting(ast) > 1:
-            continue      # d42's own validator uses re.search: nested quantifiers there mean ReDoS, C09 owns them
+        if not G.member_safe(ast):
+            continue      # d42's own validator runs re.search on members: only backtracking-safe shapes (C09 owns the rest)
         if G.has_unsupported(ast):
             # only where a raising fake() is part of the history under test (C07, C17)
             return {"t": "str", "regex": {"pattern": pat, "ast": ast}, "order": ["regex"]}, "x"
